@@ -9,85 +9,18 @@ Local Open Scope Z_scope.
 
 Ltac Zify.zify_post_hook ::= Z.to_euclidean_division_equations.
 
-Section Ordered.
+Definition offc (base : Z) (c : chunk) : Z := off base (tsn c).
+
+Section Sorted.
 Variable base N : Z.
 Hypothesis Hbase : r32 base.
 Hypothesis HN : 0 <= N < 2147483648.
-(* the messages sent on this stream, as fragment lists, in sending order; o j is the
-   TSN offset (from `base`) of the first fragment of message j; s0 the SSN of message 0 *)
-Variable M : list (list chunk).
-Variable o : nat -> Z.
-Variable s0 : Z.
-
-Definition ssn (j : nat) : Z := (s0 + Z.of_nat j) mod 65536.
-Definition offc (c : chunk) : Z := off base (tsn c).
-
-Record chunk_ok (j i : nat) (f : list chunk) (c : chunk) : Prop := {
-  ok_un : unordered c = false;
-  ok_sseq : sseq c = ssn j;
-  ok_first : first c = Nat.eqb i 0;
-  ok_last : last c = Nat.eqb (S i) (length f);
-  ok_inw : inw base N (tsn c);
-  ok_off : offc c = o j + Z.of_nat i }.
-
-Hypothesis wfM : forall j f, nth_error M j = Some f ->
-  f <> [] /\ o j + Z.of_nat (length f) <= o (S j) /\ forall i c, nth_error f i = Some c -> chunk_ok j i f c.
-
-Definition at_ (j i : nat) (c : chunk) : Prop := exists f, nth_error M j = Some f /\ nth_error f i = Some c.
-
-Lemma o_mono : forall d j f, nth_error M j = Some f -> (j + d < length M)%nat ->
-  o j + Z.of_nat (length f) <= o (j + S d)%nat.
-Proof.
-  induction d as [|d IH]; intros j f Hf Hl.
-  - replace (j + 1)%nat with (S j) by lia. exact (proj1 (proj2 (wfM j f Hf))).
-  - assert (Hl' : (j + d < length M)%nat) by lia. pose proof (IH j f Hf Hl') as H1.
-    destruct (nth_error M (j + S d)) as [f2|] eqn:E2; [|apply nth_error_None in E2; lia].
-    pose proof (proj1 (proj2 (wfM _ f2 E2))) as H2. replace (j + S (S d))%nat with (S (j + S d)) by lia. lia.
-Qed.
-
-Lemma at_lt j i c j' i' c' : at_ j i c -> at_ j' i' c' -> (j < j')%nat -> offc c < offc c'.
-Proof.
-  intros (f & Hf & Hc) (f' & Hf' & Hc') Hlt.
-  pose proof (ok_off _ _ _ _ (proj2 (proj2 (wfM j f Hf)) i c Hc)) as E1.
-  pose proof (ok_off _ _ _ _ (proj2 (proj2 (wfM j' f' Hf')) i' c' Hc')) as E2.
-  assert (Hi : (i < length f)%nat) by (apply nth_error_Some; congruence).
-  assert (Hj' : (j' < length M)%nat) by (apply nth_error_Some; congruence).
-  pose proof (o_mono (j' - j - 1) j f Hf ltac:(lia)) as Hm. replace (j + S (j' - j - 1))%nat with j' in Hm by lia. lia.
-Qed.
-
-Lemma at_inj j i c j' i' c' : at_ j i c -> at_ j' i' c' -> offc c = offc c' -> j = j' /\ i = i' /\ c = c'.
-Proof.
-  intros A A' E.
-  destruct (lt_eq_lt_dec j j') as [[Hlt|Heq]|Hgt].
-  - pose proof (at_lt _ _ _ _ _ _ A A' Hlt). lia.
-  - subst j'. destruct A as (f & Hf & Hc). destruct A' as (f' & Hf' & Hc'). rewrite Hf in Hf'. injection Hf' as <-.
-    pose proof (ok_off _ _ _ _ (proj2 (proj2 (wfM j f Hf)) i c Hc)) as E1.
-    pose proof (ok_off _ _ _ _ (proj2 (proj2 (wfM j f Hf)) i' c' Hc')) as E2.
-    assert (i = i') by lia. subst i'. rewrite Hc in Hc'. injection Hc' as <-. auto.
-  - pose proof (at_lt _ _ _ _ _ _ A' A Hgt). lia.
-Qed.
-
-Lemma at_ok j i c : at_ j i c -> exists f, nth_error M j = Some f /\ nth_error f i = Some c /\ chunk_ok j i f c.
-Proof. intros (f & Hf & Hc). exists f. split; [exact Hf|]. split; [exact Hc|]. exact (proj2 (proj2 (wfM j f Hf)) i c Hc). Qed.
-
-(* ---- 16-bit stream sequence numbers inside a window of 2^15 messages *)
-Definition inwin (k j : nat) : Prop := Z.of_nat k <= Z.of_nat j < Z.of_nat k + 32768.
-Lemma ssn_gt k j : inwin k j -> uint16_gt (ssn j) (ssn k) = true <-> (k < j)%nat.
-Proof. unfold ssn, uint16_gt, inwin. intros H. lia. Qed.
-Lemma ssn_eq k j : inwin k j -> (ssn j =? ssn k) = true <-> j = k.
-Proof. unfold ssn, inwin. intros H. lia. Qed.
-Lemma ssn_succ k : uint16_add (ssn k) 1 = ssn (S k).
-Proof. rewrite uint16_add_mod. unfold ssn. lia. Qed.
+Local Notation offc := (offc base).
 
 (* ---- sorted queues *)
 Fixpoint sorted (l : list chunk) : Prop :=
   match l with [] => True | c :: l' => Forall (fun x => offc c < offc x) l' /\ sorted l' end.
 
-Definition labelled (k : nat) (c : chunk) : Prop := exists j i, at_ j i c /\ inwin k j.
-Definition qinv (k : nat) (Q : list chunk) : Prop := sorted Q /\ Forall (labelled k) Q.
-
-Lemma labelled_inw k c : labelled k c -> inw base N (tsn c).
-Proof. intros (j & i & A & _). destruct (at_ok _ _ _ A) as (f & _ & _ & K). exact (ok_inw _ _ _ _ K). Qed.
 
 Lemma sorted_app l1 l2 : sorted l1 -> sorted l2 -> (forall a b, In a l1 -> In b l2 -> offc a < offc b) -> sorted (l1 ++ l2).
 Proof.
@@ -149,6 +82,86 @@ Proof.
       destruct (Z.lt_trichotomy (offc (List.last l c)) (offc c)) as [H|[H|H]]; [|contradiction|exact H].
       apply (gt_off base N Hbase HN _ _ Ic Il) in H. congruence.
 Qed.
+End Sorted.
+
+Section Ordered.
+Variable base N : Z.
+Hypothesis Hbase : r32 base.
+Hypothesis HN : 0 <= N < 2147483648.
+(* the messages sent on this stream, as fragment lists, in sending order; o j is the
+   TSN offset (from `base`) of the first fragment of message j; s0 the SSN of message 0 *)
+Variable M : list (list chunk).
+Variable o : nat -> Z.
+Variable s0 : Z.
+
+Local Notation offc := (offc base).
+Local Notation sorted := (sorted base).
+
+Definition ssn (j : nat) : Z := (s0 + Z.of_nat j) mod 65536.
+
+Record chunk_ok (j i : nat) (f : list chunk) (c : chunk) : Prop := {
+  ok_un : unordered c = false;
+  ok_sseq : sseq c = ssn j;
+  ok_first : first c = Nat.eqb i 0;
+  ok_last : last c = Nat.eqb (S i) (length f);
+  ok_inw : inw base N (tsn c);
+  ok_off : offc c = o j + Z.of_nat i }.
+
+Hypothesis wfM : forall j f, nth_error M j = Some f ->
+  f <> [] /\ o j + Z.of_nat (length f) <= o (S j) /\ forall i c, nth_error f i = Some c -> chunk_ok j i f c.
+
+Definition at_ (j i : nat) (c : chunk) : Prop := exists f, nth_error M j = Some f /\ nth_error f i = Some c.
+
+Lemma o_mono : forall d j f, nth_error M j = Some f -> (j + d < length M)%nat ->
+  o j + Z.of_nat (length f) <= o (j + S d)%nat.
+Proof.
+  induction d as [|d IH]; intros j f Hf Hl.
+  - replace (j + 1)%nat with (S j) by lia. exact (proj1 (proj2 (wfM j f Hf))).
+  - assert (Hl' : (j + d < length M)%nat) by lia. pose proof (IH j f Hf Hl') as H1.
+    destruct (nth_error M (j + S d)) as [f2|] eqn:E2; [|apply nth_error_None in E2; lia].
+    pose proof (proj1 (proj2 (wfM _ f2 E2))) as H2. replace (j + S (S d))%nat with (S (j + S d)) by lia. lia.
+Qed.
+
+Lemma at_lt j i c j' i' c' : at_ j i c -> at_ j' i' c' -> (j < j')%nat -> offc c < offc c'.
+Proof.
+  intros (f & Hf & Hc) (f' & Hf' & Hc') Hlt.
+  pose proof (ok_off _ _ _ _ (proj2 (proj2 (wfM j f Hf)) i c Hc)) as E1.
+  pose proof (ok_off _ _ _ _ (proj2 (proj2 (wfM j' f' Hf')) i' c' Hc')) as E2.
+  assert (Hi : (i < length f)%nat) by (apply nth_error_Some; congruence).
+  assert (Hj' : (j' < length M)%nat) by (apply nth_error_Some; congruence).
+  pose proof (o_mono (j' - j - 1) j f Hf ltac:(lia)) as Hm. replace (j + S (j' - j - 1))%nat with j' in Hm by lia. lia.
+Qed.
+
+Lemma at_inj j i c j' i' c' : at_ j i c -> at_ j' i' c' -> offc c = offc c' -> j = j' /\ i = i' /\ c = c'.
+Proof.
+  intros A A' E.
+  destruct (lt_eq_lt_dec j j') as [[Hlt|Heq]|Hgt].
+  - pose proof (at_lt _ _ _ _ _ _ A A' Hlt). lia.
+  - subst j'. destruct A as (f & Hf & Hc). destruct A' as (f' & Hf' & Hc'). rewrite Hf in Hf'. injection Hf' as <-.
+    pose proof (ok_off _ _ _ _ (proj2 (proj2 (wfM j f Hf)) i c Hc)) as E1.
+    pose proof (ok_off _ _ _ _ (proj2 (proj2 (wfM j f Hf)) i' c' Hc')) as E2.
+    assert (i = i') by lia. subst i'. rewrite Hc in Hc'. injection Hc' as <-. auto.
+  - pose proof (at_lt _ _ _ _ _ _ A' A Hgt). lia.
+Qed.
+
+Lemma at_ok j i c : at_ j i c -> exists f, nth_error M j = Some f /\ nth_error f i = Some c /\ chunk_ok j i f c.
+Proof. intros (f & Hf & Hc). exists f. split; [exact Hf|]. split; [exact Hc|]. exact (proj2 (proj2 (wfM j f Hf)) i c Hc). Qed.
+
+(* ---- 16-bit stream sequence numbers inside a window of 2^15 messages *)
+Definition inwin (k j : nat) : Prop := Z.of_nat k <= Z.of_nat j < Z.of_nat k + 32768.
+Lemma ssn_gt k j : inwin k j -> uint16_gt (ssn j) (ssn k) = true <-> (k < j)%nat.
+Proof. unfold ssn, uint16_gt, inwin. intros H. lia. Qed.
+Lemma ssn_eq k j : inwin k j -> (ssn j =? ssn k) = true <-> j = k.
+Proof. unfold ssn, inwin. intros H. lia. Qed.
+Lemma ssn_succ k : uint16_add (ssn k) 1 = ssn (S k).
+Proof. rewrite uint16_add_mod. unfold ssn. lia. Qed.
+
+Definition labelled (k : nat) (c : chunk) : Prop := exists j i, at_ j i c /\ inwin k j.
+Definition qinv (k : nat) (Q : list chunk) : Prop := sorted Q /\ Forall (labelled k) Q.
+
+Lemma labelled_inw k c : labelled k c -> inw base N (tsn c).
+Proof. intros (j & i & A & _). destruct (at_ok _ _ _ A) as (f & _ & _ & K). exact (ok_inw _ _ _ _ K). Qed.
+
 
 (* ---- generic list facts *)
 Lemma skipn_nth {A} (l : list A) : forall k x, nth_error l k = Some x -> skipn k l = x :: skipn (S k) l.
@@ -363,7 +376,7 @@ Proof.
     assert (Hne : forall x, In x Q -> offc x <> offc c).
     { intros x Hx E. rewrite Forall_forall in LQ. destruct (LQ x Hx) as (jx & ix & Ax & _).
       destruct (at_inj _ _ _ _ _ _ Ax A E) as (_ & _ & ->). contradiction. }
-    destruct (add_chunk_sorted c Q SQ IQ (labelled_inw k c Lc) Hne) as (Q1 & E1 & S1 & In1).
+    destruct (add_chunk_sorted base N Hbase HN c Q SQ IQ (labelled_inw k c Lc) Hne) as (Q1 & E1 & S1 & In1).
     rewrite E1 in *.
     assert (Q1i : qinv k Q1).
     { split; [exact S1|]. apply Forall_forall. intros x Hx. apply In1 in Hx as [->|Hx]; [exact Lc|].
